@@ -135,6 +135,16 @@ pub struct Doc {
     /// is then a symbolic link to the directory part of this
     #[serde(default)]
     pub stored_at: Option<String>,
+    /// with `stored_at`: the document FILE is the symbolic link (not its directory)
+    #[serde(default)]
+    pub file_symlink: bool,
+    /// Markdown: two blanks (odd test cases: a blank and a tab) between the language and the
+    /// inline configuration of a fence
+    #[serde(default)]
+    pub fence_wide_gap: bool,
+    /// Markdown: blocks are closed with a fence one backtick longer than the opening one
+    #[serde(default)]
+    pub long_closing_fence: bool,
 }
 
 fn yes() -> bool {
